@@ -3,7 +3,7 @@ import sys, os, shutil, subprocess, tempfile
 rel, old, new, mods, fn = sys.argv[1:6]
 d = tempfile.mkdtemp(prefix="mut_")
 dst = os.path.join(d, rel)
-os.makedirs(os.path.dirname(dst))
+shutil.copytree("/repo/ural", os.path.join(d, "ural"), ignore=shutil.ignore_patterns("__pycache__"))
 s = open(os.path.join("/repo", rel)).read()
 assert s.count(old) >= 1, "pattern not found"
 occ = int(os.environ.get("OCC", "1"))
